@@ -3,12 +3,16 @@
 
 Proof obligations: Props/C11.lean (generated arithmetic: partition theorems, counterexamples),
 Props/C17Index.lean (index queue, all interleavings), Props/C11Proto.lean (worker / join-counter
-protocol) - all over models whose arithmetic is REGENERATED from the C++ source by
+protocol), Props/C11c.lean (follow-up C11c: the COMPOSED model - plan from the generated arithmetic,
+index-queue load/CAS steps, index loop with the value pack, exception slot, completion; end-to-end
+theorems under Safe) - all over models whose arithmetic is REGENERATED from the C++ source by
 tools/translate/bulk_arith.py on every run.
 Ties: (a) T-gen; (b) E1 controlled schedules of the real contiguous_index_queue replayed through
 the Lean acceptor `iq`; (c) E0 differential execution of the real get_chunk_size / init_queue /
 do_work_chunk against the generated functions; (d) live runs of the real bulk (two thread pools):
-plan + chunk events compared with the model, trace replayed through the protocol acceptor,
+plan + chunk events compared with the model, trace replayed through the protocol acceptor and
+(C11c) through the composed acceptor BulkC (every call of f with index and value token, every load /
+compare-exchange of the index queues, throws, the completion with its token),
 independent monitors on per-index counters and the receiver's signals.
 """
 import os, sys, time, json, re, glob
@@ -16,7 +20,7 @@ sys.path.insert(0, os.path.join(os.path.dirname(os.path.abspath(__file__)), '..'
 from vlib import *
 
 PROP = 'C11'
-PROPS = ['C11', 'C17Index', 'C11Proto']
+PROPS = ['C11', 'C17Index', 'C11Proto', 'C11c']
 JOBS = 6
 U32, U64 = 1 << 32, 1 << 64
 SH = {0: (32, True), 1: (32, False), 2: (64, True), 3: (64, False)}
